@@ -223,7 +223,7 @@ def _norm(v, n):
     return v + n if v < 0 else v
 
 
-def kget_area_negative_rows(r0, r1, y, tt, x, z, j, **kw):
+def kget_area_negative_rows(r0, r1, y, tt, z, j, x=0, **kw):
     t = mktab(r0, r1, 1, 1)
     h, w = r0 + r1, 2
     a = t.get_values((x, y, z, tt))
